@@ -219,6 +219,62 @@ def shard_drawn(arg):
     return st
 
 
+def selfloop_case(case, st=None):
+    """graphs with self-loop edges (Graph.add_edge(v, v) is legal).  Whether a lone active self-loop is 'one
+    simple cycle' is left open (don't care); everything else is not: with no active loop the loops are
+    just absent, and an active loop together with any other active edge is never a single cycle."""
+    from cspuz import Solver
+
+    s = Solver()
+    try:
+        eids, n, edges, pids = post(case, s)
+    except Exception as e:
+        raise Failure("posting-raises|%s|%s|self-loop" % (tag(case), repo_frame_sig(e)), observed=str(e)[:150])
+    q = encq.Query(s)
+    loops = [i for i, (u, v) in enumerate(edges) if u == v]
+    plain = [i for i in range(len(edges)) if i not in loops]
+    counts = dict(checked=0, dont_care=0, loop_plus_more=0)
+    for pat in graphref.patterns(len(edges)):
+        active_loops = [i for i in loops if pat[i]]
+        if active_loops and sum(pat) == 1:
+            counts["dont_care"] += 1
+            continue
+        if active_loops:
+            want = False
+            counts["loop_plus_more"] += 1
+        else:
+            want = reference(case["kind"], n, [edges[i] for i in plain], [pat[i] for i in plain])
+        got = q.admits(eids, pat)
+        counts["checked"] += 1
+        if got != want:
+            raise Failure(("admits-invalid|" if got else "rejects-valid|") + tag(case) + "|self-loop",
+                          observed=got, expected=want, detail=dict(case, pattern=[int(x) for x in pat]))
+    return counts
+
+
+def shard_selfloop(arg):
+    seed, n_graphs = arg
+    st = Stats()
+    from hypothesis import strategies as hs
+
+    @hs.composite
+    def c(draw):
+        g = draw(c09.multigraph_strategy(5, 6))
+        edges = [list(e) for e in g["edges"]]
+        for _ in range(draw(hs.integers(1, 2))):
+            v = draw(hs.integers(0, g["n"] - 1))
+            edges.insert(draw(hs.integers(0, len(edges))), [v, v])
+        return dict(n=g["n"], edges=edges, kind="cycle", native=False, warm=None)
+
+    def body(case):
+        out = selfloop_case(case)
+        st.case(canon=case, nontrivial=out["loop_plus_more"] >= 1, classes=["self-loop-graph"], sample=case)
+        st.extra["self_loop_patterns"] = st.extra.get("self_loop_patterns", 0) + out["checked"]
+
+    hyp_search(st, c(), body, seed=seed, max_examples=n_graphs, check="c06.selfloop", rounds=2)
+    return st
+
+
 def shard_e2e(arg):
     seed, n_cases = arg
     st = Stats()
@@ -284,7 +340,9 @@ def run(ctx):
         "pattern the returned array is forced to the visited vertices. non-trivial = >= 3 active edges or "
         "two disjoint cycles; distinct by construction / case hash")
     ctx.assumptions = ["the rank form of active_edges_single_path raising RuntimeError('TODO') is documented behaviour",
-                       "a pair of parallel edges is a 2-cycle"]
+                       "a pair of parallel edges is a 2-cycle",
+                       "self-loop edges: whether a lone active self-loop counts as a cycle is not asserted; an active "
+                       "self-loop together with any other active edge must be rejected; inactive self-loops are absent"]
     quick = ctx.quick()
     cases = []
     for n in range(2, (4 if quick else 5) + 1):
@@ -323,7 +381,10 @@ def run(ctx):
         ctx.stats.merge(r)
     for r in pmap(shard_e2e, [(ctx.seed * 1000 + 70 + i, 100 if quick else 2000) for i in range(8 if quick else 16)]):
         ctx.stats.merge(r)
+    for r in pmap(shard_selfloop, [(ctx.seed * 1000 + 90 + i, 8 if quick else 80) for i in range(8)]):
+        ctx.stats.merge(r)
     cl = ctx.stats.classes
+    ctx.floor("graphs with self-loop edges", cl["self-loop-graph"], 40)
     ctx.floor("patterns on graphs with a parallel edge (share)",
               round(cl["graph-with-parallel-edge"] / max(1, cl["pattern"]), 3), 0.15)
     ctx.floor("patterns with two disjoint cycles", cl["two-disjoint-cycles"], 50)
@@ -334,6 +395,9 @@ def replay(ctx, rep):
     case = rep["case"]
     if rep.get("check") == "c06.e2e":
         e2e_case(case)
+        return
+    if rep.get("check") == "c06.selfloop":
+        selfloop_case(case)
         return
     st = Stats()
     c = dict(case)
